@@ -27,7 +27,7 @@ static std::vector<Decl> declarations()
     std::vector<Decl> ds;
     {
         Decl D;
-        D.items = { Item::opt("opt", "o").with_env("VP_O"), Item::multi("multi", "m"), Item::tog("tog", "t", true),
+        D.items = { Item::opt("opt", "o").with_env("VP_O"), Item::multi("multi", "m").with_def("dm"), Item::tog("tog", "t", true),
                     Item::tog("ugg", "u") };
         D.accepted = 2;
         ds.push_back(D);
